@@ -188,6 +188,39 @@ def solver_lib(world, path, save, cfg=None, capture=None):
     return world.run_op(thunk, cfg)
 
 
+def concurrently(world, seed, p, run_a, run_b, summarize):
+    """Two invocations at the same time on one disk: run_a here, run_b in a forked partner process; their
+    file-system events interleave as the seeded token schedule decides (world.Coord).  Returns
+    (outcome of a, summary of b)."""
+    coord = world.fork_partner(seed, p)
+    if coord.role == "B":
+        summ = {"status": "harness-exc", "error": "partner did not run"}
+        try:
+            summ = summarize(run_b())
+            summ["switches"] = coord.switches
+        except BaseException as e:  # noqa
+            import traceback
+            summ = {"status": "harness-exc", "error": "%s: %s\n%s" % (type(e).__name__, e, traceback.format_exc())}
+        finally:
+            coord.child_exit(summ)          # never returns
+    out_a = None
+    try:
+        out_a = run_a()
+    finally:
+        res_b = world.end_partner(coord)
+    if res_b.get("status") == "harness-exc":
+        raise proc.HarnessError("partner invocation: " + str(res_b.get("error"))[:1500])
+    return out_a, res_b
+
+
+def brief(out):
+    """Picklable outcome of an op (what a partner process reports back)."""
+    s = {k: out.get(k) for k in ("status", "etype", "emsg", "steps", "fs_fired", "site", "stderr_text", "fs_events")}
+    c = out.get("code")
+    s["code"] = c if isinstance(c, (int, type(None))) else str(c)
+    return s
+
+
 def container_ids(obj, acc=None, depth=0):
     """ids of every list/dict/set reachable from obj (the caller's own data, not to be scribbled on)."""
     acc = set() if acc is None else acc
